@@ -81,6 +81,7 @@ def run(ctx):
             ctx.check(ok, "R04.1", "%s|hide-dominates-queueing" % name,
                       "delete() soft-deletes the entry of the same key before the Delete command is queued, hence before it returns", f.where(bb), "key=%s" % fmt(key))
     ctx.floor("R04.1", "public APIs queueing a Delete", n_api, 1)
+    delete_always_queues(ctx, A, "R04.8")
 
     # ---- R04.3 / R04.4 shared with C09 -------------------------------------------------------------
     import c09
@@ -151,3 +152,32 @@ def run(ctx):
     for o in ctx.own_of("c05"):
         if o["rule"] == "R05.2" and ("release-iff-removed" in o["key"] or ("returns-removed-id" in o["key"] and any(h.name and any(t.get("rpath") == o["key"].split("|")[1] for b, t in h.calls()) for h in handlers))):
             ctx._add(o["status"], "R04.5", o["key"].split("|", 1)[1], o["desc"], o["where"], o["detail"])
+
+
+def delete_always_queues(ctx, A, RULE):
+    """every call of the public delete that is not refused for shutdown queues a Delete command: whether the key looks
+    present (or already hidden) on the caller thread says nothing about what is queued ahead of it"""
+    from core import bool_branches, enum_paths, path_calls, path_return, ret_variant
+    F = ctx.facts
+    for name, f in F.fns.items():
+        if not f.rec.get("reachable") or f.kind == "Closure":
+            continue
+        sends = []
+        for bb, t in f.calls():
+            if t.get("rpath") in A.send_fns:
+                cmd = f.op_origin(t["args"][1])
+                if cmd[0] == "agg" and cmd[2] == "Delete":
+                    sends.append(bb)
+        if not sends:
+            continue
+        bad = []
+        for p in enum_paths(f):
+            r = path_return(f, p)
+            refused = (ret_variant(r) == ("Err",)) or (r[0] == "call" and r[1] in F.fns and "shutdown" in r[1])
+            if refused:
+                continue
+            if not any(b in sends for b in p):
+                bad.append(p)
+        ctx.check(not bad, RULE, "%s|delete-always-queued" % name,
+                  "unless the cache is shutting down, delete() always queues a Delete command (it must not answer on the spot from what the caller thread sees: a put of the same key may be queued ahead)",
+                  f.where(), "paths returning without queueing: %s" % [q[:8] for q in bad[:2]])
